@@ -127,3 +127,5 @@ Proof. rewrite source_statement_order. exact nothing_handed_over_after_release. 
 Theorem source_shutdown_progress : forall s, treachable source_flags s -> t_closed s = true -> t_ap s <> ADone ->
   exists l s', l <> TShutdown /\ tstep source_flags s l = Some s'.
 Proof. rewrite source_statement_order. exact shutdown_progress. Qed.
+Theorem source_server_traces_accepted : forall ls s, trun source_flags tinit ls = Some s -> puse_ok (ptrace source_flags tinit ls) = true.
+Proof. rewrite source_statement_order. exact server_traces_accepted. Qed.
